@@ -58,9 +58,8 @@ def execute(c):
 
         da = xr.DataArray(pix, dims=("time", "y", "x"), coords={"time": pd.date_range("2000-01-01", periods=pix.shape[0], freq="10D")}, attrs={"nodata": ND})
         zn = xr.DataArray(zones, dims=("y", "x"), attrs={"nodata": ZND})
-        if c["tid"] % 3 == 1:       # the zone raster stored in the other order: pixels and zones meet by dimension NAME
-            zn = zn.transpose("x", "y")
-            c["zorder"] = ["x", "y"]
+        if c.get("zorder"):         # the zone raster stored in the other order: pixels and zones meet by dimension NAME
+            zn = zn.transpose(*c["zorder"])
         # stored layout of the cube: time first / last / middle (the zone raster stays (y, x))
         order = {1: ("y", "x", "time"), 2: ("y", "time", "x")}.get(c["tid"] % 5)
         if order and c["api"] != "accessor_dask_joint":
@@ -146,6 +145,8 @@ def gen_cases(tier, seed):
     # small random rasters, many zones incl. empty ones
     for _ in range(120 if quick else 1200):
         ny, nx = rng.randint(1, 12), rng.randint(1, 12)
+        if rng.random() < 0.35:
+            nx = ny = max(2, ny)
         nz = rng.choice([1, 2, 3, 5, 17, 100, 1000])
         nz_used = max(1, min(nz, rng.randint(1, 8)))
         dtype = rng.choice(["int16", "float32", "float64", "int32"])
@@ -156,6 +157,10 @@ def gen_cases(tier, seed):
         if api == "kernel":   # the kernel itself only knows nodata (NaN is mapped to nodata by the accessor)
             steps = [[[z, (ND if v is None else v), cnt] for z, v, cnt in s] for s in steps]
         c = {"api": api, "steps": steps, "shape": [ny, nx], "dtype": dtype, "nz": nz, "bits": rng.choice([24, 24, 53])}
+        if api != "kernel" and ny == nx:
+            # square rasters: the zone raster is handed over in (x, y) order (a mix-up of the two axes changes numbers here, it does
+            # not crash; the non-square form of the same mistake is an out-of-bounds access and belongs to C14's bounds worker)
+            c["zorder"] = ["x", "y"]
         # the nodata value itself varies: values the data type holds exactly but a narrower float does not
         # (1e20, the int32 maximum), the edges of int16, the float maxima
         ndv = rng.choice({"int16": [ND, ND, -32768, 32767], "int32": [2147483647, -2147483648, ND], "float32": [ND, ND, -3.4028234663852886e38],
